@@ -580,15 +580,15 @@ Definition default_new_dir (root : cpath) : string :=
   | _ => "localized-" ++ base_c root
   end.
 
-(* localizer.Run for a local target: NewLoader (ConfirmDir target, establishScope, createNewDir),
-   MkdirAll(dst), localize(), cleanup. Returns args.NewDir.String(). *)
-Definition localize_run (orc : oracles) (fuel : nat) (target scope newdir : string) : prog string :=
+(* localizer.Run for a local target, part 1 — NewLoader: ConfirmDir(target), establishScope,
+   createNewDir.  Returns (scope, target root, newDir). *)
+Definition localize_prelude (target scope newdir : string) : prog (cpath * cpath * cpath) :=
   dop _ <- guard_local target ;
   dop troot <- confirm_dir target ;
   (* establishScope *)
   dop sc <- (if String.eqb scope "" then Ret troot
-         else dop s <- confirm_dir scope ;
-              if has_prefix_c troot s then Ret s else Throw XErr) ;
+             else dop s <- confirm_dir scope ;
+                  if has_prefix_c troot s then Ret s else Throw XErr) ;
   (* createNewDir *)
   let raw := if String.eqb newdir "" then default_new_dir troot else newdir in
   dop ex <- op_bool (EExists raw) ;
@@ -600,17 +600,26 @@ Definition localize_run (orc : oracles) (fuel : nat) (target scope newdir : stri
     | None =>
         (* defect: newDir is still the zero value here, RemoveAll("") *)
         Op (ERemoveAll "") (fun _ => Throw XErr)
-    | Some nd =>
-        let args := mkArgs sc nd in
-        let dst := join_comps nd (rel_comps sc troot) in
-        (* defect: no cleanup when this fails *)
-        dop _ <- op_unit (EMkdirAll (show_abs dst)) ;
-        dop r2 <- pcatch (localize orc args fuel (mkLc troot [] dst)) ;
-        match r2 with
-        | Some _ => Ret (show_abs nd)
-        | None => Op (ERemoveAll (show_abs nd)) (fun _ => Throw XErr)
-        end
+    | Some nd => Ret (sc, troot, nd)
     end.
+
+(* part 2 — Run after NewLoader: MkdirAll(dst), localize(), cleanup on error.
+   Returns args.NewDir.String(). *)
+Definition localize_tail (orc : oracles) (fuel : nat) (x : cpath * cpath * cpath) : prog string :=
+  let '(sc, troot, nd) := x in
+  let args := mkArgs sc nd in
+  let dst := join_comps nd (rel_comps sc troot) in
+  (* defect: no cleanup when this fails *)
+  dop _ <- op_unit (EMkdirAll (show_abs dst)) ;
+  dop r2 <- pcatch (localize orc args fuel (mkLc troot [] dst)) ;
+  match r2 with
+  | Some _ => Ret (show_abs nd)
+  | None => Op (ERemoveAll (show_abs nd)) (fun _ => Throw XErr)
+  end.
+
+Definition localize_run (orc : oracles) (fuel : nat) (target scope newdir : string) : prog string :=
+  dop x <- localize_prelude target scope newdir ;
+  localize_tail orc fuel x.
 
 Definition world0 (s : fs) : world := mkW s 0 [].
 
